@@ -19,7 +19,7 @@ RULE = ('cases = generated schedules: a worker function of a generated kind {ret
         'by sha1(kind, limit, delta, variant, repetition)')
 BUDGET = {'quick': 25, 'thorough': 400}
 EXC_TYPES = ['ValueError', 'RuntimeError', 'KeyError', 'IndexError', 'ZeroDivisionError', 'MemoryError', 'OSError',
-             'AssertionError']
+             'AssertionError', 'StopIteration', 'RecursionError', 'NotImplementedError', 'ArithmeticError', 'LookupError']
 KINDS = ['return', 'raise', 'swallow', 'native', 'retry_loop', 'nested_inner_times_out', 'nested_inner_returns']
 DELTAS = [-200, -60, -30, -15, -8, -4, -2, -1, 0, 1, 2, 4, 8, 15, 30, 60, 200, 500]
 
@@ -31,12 +31,17 @@ def fixed_cases(tier):
             for r in range(reps):
                 yield {'kind': kind, 'limit_ms': 80, 'delta_ms': d, 'exc': EXC_TYPES[(d+r) % len(EXC_TYPES)],
                        'tau_ms': 300 if d in (60, 200, 500) else 30, 'rep': r}
+    # decidedly in time (>= 300 ms before a 400-500 ms limit): the own result / every own exception type must come back
+    for limit, d in ((400, -380), (500, -320)):
+        yield {'kind': 'return', 'limit_ms': limit, 'delta_ms': d, 'exc': 'ValueError', 'tau_ms': 30, 'rep': 0}
+        for exc in EXC_TYPES:
+            yield {'kind': 'raise', 'limit_ms': limit, 'delta_ms': d, 'exc': exc, 'tau_ms': 30, 'rep': 0}
 
 
 def strategy(tier):
     return st.fixed_dictionaries({
-        'kind': st.sampled_from(KINDS), 'limit_ms': st.sampled_from([40, 80, 120]),
-        'delta_ms': st.one_of(st.sampled_from(DELTAS), st.integers(-20, 20)),
+        'kind': st.sampled_from(KINDS), 'limit_ms': st.sampled_from([40, 80, 120, 400]),
+        'delta_ms': st.one_of(st.sampled_from(DELTAS), st.integers(-20, 20), st.sampled_from([-350, -300])),
         'exc': st.sampled_from(EXC_TYPES), 'tau_ms': st.sampled_from([5, 30, 80, 300]), 'rep': st.integers(0, 3)})
 
 
